@@ -241,15 +241,16 @@ Qed.
 Lemma do_delete_spec e k s b s1 : do_delete e k s = (b, s1) ->
   sto s1 = sto s \/ sto s1 = remove k (sto s).
 Proof.
-  unfold do_delete. destruct (faulty e s); intros H; injection H; intros <- _; cbn; auto.
+  unfold do_delete. destruct (faulty e s); [|destruct (efaulty e s)]; intros H; injection H; intros <- _; cbn; auto.
 Qed.
 
 Lemma do_store_spec e k n s b s1 : do_store e k n s = (b, s1) ->
   (b = false /\ sto s1 = sto s /\ lg s1 = Ev KStore k false :: lg s) \/
-  (b = true /\ sto s1 = put k n (sto s) /\ is_dir (sto s) k = false /\ lg s1 = Ev KStore k true :: lg s).
+  (sto s1 = put k n (sto s) /\ is_dir (sto s) k = false /\ lg s1 = Ev KStore k b :: lg s).
 Proof.
   unfold do_store. destruct (faulty e s); [intros H; injection H; intros <- <-; cbn; auto|].
-  destruct (is_dir (sto s) k) eqn:D; intros H; injection H; intros <- <-; cbn; auto 6.
+  destruct (is_dir (sto s) k) eqn:D; [intros H; injection H; intros <- <-; cbn; auto 6|].
+  destruct (efaulty e s); intros H; injection H; intros <- <-; cbn; auto 6.
 Qed.
 
 (** * Shapes of keys *)
@@ -617,7 +618,7 @@ Inductive kpost (o : opts) (clk : nat -> Z) (s0 fin : store) (stored : bool) (k 
 | PWritten i : k = spec_last_clean -> lookup fin k = Some (written (clk i) o) -> stored = true ->
              lookup s0 k <> Some Dir -> kpost o clk s0 fin stored k.
 Definition PostN (o : opts) (clk : nat -> Z) (s0 : store) (s' : st) : Prop :=
-  forall k, kpost o clk s0 (sto s') (stored_ok (lg s')) k.
+  forall k, kpost o clk s0 (sto s') (stored_any (lg s')) k.
 
 Lemma site_folderb_prefix k : site_folderb k = true -> has_prefix (spec_certs ++ [c_sl]) k = true.
 Proof.
@@ -640,7 +641,7 @@ Proof.
   { subst s3. destruct (do_certs o) eqn:Ho; [|exact HI2].
     apply delete_expired_certs_inv; [exact Ho | exact HI2]. }
   destruct (do_store e clean_storage_key (written (rd clk s3) o) s3) as [ok s4] eqn:S. cbn [snd].
-  destruct (do_store_spec _ _ _ _ _ _ S) as [(_ & E4 & _)|(_ & E4 & Hnd & L4)];
+  destruct (do_store_spec _ _ _ _ _ _ S) as [(_ & E4 & _)|(E4 & Hnd & L4)];
     [intros k; apply PState; rewrite E4; exact (HI3 k)|].
   destruct consts_ok as (_ & _ & _ & _ & _ & _ & _ & Ek & _). rewrite Ek in *.
   intros k. rewrite E4. pose proof (lookup_put spec_last_clean (written (rd clk s3) o) (sto s3) k) as L.
@@ -674,7 +675,7 @@ Proof.
     match type of C with clean_locked _ _ _ ?sx = _ =>
       pose proof (clean_locked_postN e o clk s0 sx (Inv_init o clk s0)) as P end.
     rewrite C in P. cbn [snd] in P. intros k. specialize (P k). unfold do_unlock. cbn [sto lg logged].
-    unfold stored_ok in *. cbn [existsb ev_kind]. exact P.
+    unfold stored_any in *. cbn [existsb ev_kind]. exact P.
 Qed.
 
 (** the same for terminal keys *)
@@ -713,7 +714,7 @@ Proof. unfold do_list. destruct (faulty e s); apply ext_one; reflexivity. Qed.
 Lemma do_stat_ext e k s : ext s (snd (do_stat e k s)).
 Proof. unfold do_stat. destruct (faulty e s); apply ext_one; reflexivity. Qed.
 Lemma do_delete_ext e k s : ext s (snd (do_delete e k s)).
-Proof. unfold do_delete. destruct (faulty e s); apply ext_one; reflexivity. Qed.
+Proof. unfold do_delete. destruct (faulty e s); [|destruct (efaulty e s)]; apply ext_one; reflexivity. Qed.
 
 Ltac ext_step :=
   match goal with
@@ -830,7 +831,7 @@ Proof.
     destruct X3 as [new [Enew Hnew]].
     destruct consts_ok as (_ & _ & _ & _ & _ & _ & _ & -> & _).
     unfold do_store.
-    destruct (faulty e s3); [|destruct (is_dir (sto s3) spec_last_clean)];
+    destruct (faulty e s3); [|destruct (is_dir (sto s3) spec_last_clean); [|destruct (efaulty e s3)]];
       intros H; injection H; intros <- <-; cbn [lg logged];
       (eexists (_ :: new ++ pre); split; [rewrite Enew, Epre, app_assoc; reflexivity|]; split;
        [cbn; unfold nolock in *; rewrite forallb_app, Hnew; exact (proj1 Npre) | right; eexists; eexists; split; reflexivity]).
